@@ -12,14 +12,19 @@ Import ListNotations.
 Open Scope Z_scope.
 
 Inductive case :=
-| CPure (id : Z) (c : cfg) (input order : list block) (obsD obsT obsS : list Z)
-| CReload (id : Z) (c : cfg) (disk : list dentry) (prev : list Z) (order : option (list block))
+| CPure (id : Z) (c : cfg) (input : list block) (order : list Z) (obsD obsT obsS : list Z)
+| CReload (id : Z) (c : cfg) (disk : list dentry) (prev : list Z) (order : option (list Z))
           (err : bool) (obs_blocks obs_dirs : list Z)
           (head_same : bool)     (* head fingerprint and WAL/WBL/chunks_head listing unchanged by the reload *)
           (headsum_ok : bool)    (* Head().Size() = bytes in wal/ + wbl/ + chunks_head/ measured by the harness *).
 
 Definition c_id (c : case) : Z :=
   match c with CPure id _ _ _ _ _ _ => id | CReload id _ _ _ _ _ _ _ _ _ => id end.
+
+(* the observed order is transmitted as the list of block ids; an id that is not in the input
+   makes the order shorter than the input, hence invalid *)
+Definition resolve (bs : list block) (ids : list Z) : list block :=
+  flat_map (fun i => match find (fun b => b_id b =? i) bs with Some b => [b] | None => [] end) ids.
 
 Definition subsetZ (a b : list Z) : bool := forallb (fun x => memZ x b) a.
 Definition set_eqb (a b : list Z) : bool := subsetZ a b && subsetZ b a.
@@ -35,20 +40,18 @@ Definition rres_agree (r : rres) (all_dirs prev : list Z) (err : bool) (obs_bloc
 
 Definition agree (cs : case) : bool :=
   match cs with
-  | CPure _ c input o obsD obsT obsS =>
-      valid_order o input &&
+  | CPure _ c input oi obsD obsT obsS =>
+      let o := resolve input oi in
+      (Z.of_nat (length oi) =? Z.of_nat (length input)) && valid_order o input &&
       set_eqb obsT (beyond_time c o) && set_eqb obsS (beyond_size c o) &&
       set_eqb obsD (deletable_ids c o)
   | CReload _ c disk prev order err ob od _ _ =>
-      let orders := match order with Some o => [o] | None => all_orders (loadable disk) end in
+      let orders := match order with Some o => [resolve (loadable disk) o] | None => all_orders (loadable disk) end in
       existsb (fun o => valid_order o (loadable disk) &&
                         rres_agree (reload c disk o) (map d_id disk) prev err ob od) orders
   end.
 
 (* ---------- holds: the property statement on the implementation's own output ---------- *)
-Definition newest (bs : list block) : Z := fold_right (fun b m => Z.max (b_maxt b) m) minInt64 bs.
-Definition oldest (bs : list block) : Z := fold_right (fun b m => Z.min (b_maxt b) m) maxInt64 bs.
-Definition sum_sizes (bs : list block) : Z := fold_right (fun b s => b_size b + s) 0 bs.
 
 (* the statement is about sane configurations: retention duration >= 0, MaxTime span and total
    size within int64, sizes non-negative (Block.Size() and Head.Size() are sums of file sizes) *)
@@ -107,9 +110,10 @@ Definition holds_reload_with (c : cfg) (disk : list dentry) (prev : list Z) (err
 
 Definition holds (cs : case) : bool :=
   match cs with
-  | CPure _ c input o obsD obsT obsS =>
+  | CPure _ c input oi obsD obsT obsS =>
+      let o := resolve input oi in
       if sane c input then
-        valid_order o input &&
+        (Z.of_nat (length oi) =? Z.of_nat (length input)) && valid_order o input &&
         set_eqb obsT (spec_time c input) && set_eqb obsS (spec_size c o) &&
         set_eqb obsD (map b_id (filter b_del input) ++ obsT ++ obsS) &&
         suffix_closed o (obsT ++ obsS)
@@ -117,7 +121,7 @@ Definition holds (cs : case) : bool :=
   | CReload _ c disk prev order err ob od head_same headsum_ok =>
       if sane c (loadable disk) then
         headsum_ok &&
-        let orders := match order with Some o => [o] | None => all_orders (loadable disk) end in
+        let orders := match order with Some o => [resolve (loadable disk) o] | None => all_orders (loadable disk) end in
         existsb (holds_reload_with c disk prev err ob od head_same) orders
       else true
   end.
